@@ -13,6 +13,12 @@ import time
 
 VERIF = '/verif'
 FOUND = VERIF + '/replays/found'
+EVID = VERIF + '/evidence'
+
+
+def configure(found, evid):
+    global FOUND, EVID
+    FOUND, EVID = found, evid
 
 # (configuration name, build name in verif.BUILDS, extra encsim flags)
 CONFIGS = [
@@ -66,12 +72,12 @@ def run(tier, seed, threads, ev_path, scale, build):
     t0 = time.time()
     n = int((300000 if tier == 'quick' else 2600000) * scale)
     os.makedirs(FOUND, exist_ok=True)
-    os.makedirs(VERIF + '/evidence/parts', exist_ok=True)
+    os.makedirs(EVID + '/parts', exist_ok=True)
     results = []
     bins = {}
     for name, b, extra in CONFIGS:
         bins[name] = (build(b), extra)
-        part = '%s/evidence/parts/C17.%s.json' % (VERIF, b + ('-scalar' if '--force-skip-fast' in extra else ''))
+        part = '%s/parts/C17.%s.json' % (EVID, b + ('-scalar' if '--force-skip-fast' in extra else ''))
         args = [bins[name][0], 'run', 'C17', '--seed', str(seed), '--threads', str(threads), '--runs', str(n), '--replay-dir', FOUND,
                 '--known', VERIF + '/known_findings.json', '--substrate', name, '--tier', tier, '--stats-out', part] + extra
         p = subprocess.run(args, stdout=subprocess.PIPE, text=True)
